@@ -6,7 +6,7 @@ import hexlib
 from common import hx
 
 ID = "C01"
-LEAN_IMPORTS = ["PyTrie.Props.C01", "PyTrie.Props.C01World", "PyTrie.Props.RawLevel", "PyTrie.Props.NonVacuity", "PyTrie.Props.NonVacuity2", "PyTrie.Props.FreeExec"]
+LEAN_IMPORTS = ["PyTrie.Props.C01", "PyTrie.Props.C01World", "PyTrie.Props.RawLevel", "PyTrie.Props.NonVacuity", "PyTrie.Props.NonVacuity2", "PyTrie.Props.FreeExec", "PyTrie.Props.HistoryBlocks", "PyTrie.Props.NonVacuity9"]
 THEOREMS = [
     "PyTrie.Props.C01.get_set",
     "PyTrie.Props.C01.get_delete",
@@ -39,6 +39,13 @@ THEOREMS = [
     "PyTrie.Props.Free.run_is_executor_run",
     "PyTrie.Props.Free.run_get",
     "PyTrie.Props.Free.history_lockstep",
+    "PyTrie.Props.Free.history_blocks_get",
+    "PyTrie.Props.Free.history_blocks_world",
+    "PyTrie.Props.NonVacuity9.flat_eq",
+    "PyTrie.Props.NonVacuity9.flat_spec",
+    "PyTrie.Props.NonVacuity9.get_witness_p",
+    "PyTrie.Props.NonVacuity9.get_witness_np",
+    "PyTrie.Props.NonVacuity9.get_evaluated",
 ]
 RULE = ("histories of set/setitem/set-to-empty/delete/delitem and squash_changes batches (committed and aborted) "
         "over crafted and random prefix-sharing key universes (empty key, prefixes, extensions, mid-path "
